@@ -24,7 +24,7 @@ RULE = (
 MIN_NONTRIVIAL = {"quick": 200, "thorough": 40000}
 SHARDS = {"quick": 1, "thorough": 16}
 GENERATOR = {
-    "pressure": "15..30000 psia (int32 p**2 overflows above 46340, outside any PVT range)",
+    "pressure": "15..30000 psia, plus an element exactly 0 in a fifth of the oil / water arrays (int32 p**2 overflows above 46340, outside any PVT range)",
     "oil": "C12 box (T 80..350, API 12..55, gg 0.56..1.3, GOR 20..2500, p_b > 50); in 35 % of the cases T, API and GOR are passed as Python ints",
     "water": "T 60..400 F, salinity 0..25 wt%",
     "gas (Fluid.gas_*)": "plausible pseudocritical points, p 15..12000",
@@ -104,6 +104,10 @@ def generate(ck):
             for j in range(length):
                 if rng.random() < 0.35 and p[j] != pb:
                     p[j] = pb * (1 + float(rng.choice([-1, 1])) * 10.0 ** (-int(rng.integers(3, 13))))
+        if length >= 1 and rng.random() < 0.2 and not fn.startswith("Fluid.gas") and fn != "oil_compressibility_undersat_Spivey":
+            # the lower end of a table that starts at zero gauge / absolute pressure (np.linspace(0, ...)):
+            # every one of these correlations is finite at p = 0 when called with the scalar
+            p[int(rng.integers(0, length))] = 0.0
         if dtype in ("i8", "i4"):
             p = np.round(p)
             if length >= 2 and fn in OILY:
